@@ -208,3 +208,6 @@ func MustBeFeasible(cond bool, label string) {}
 // IsFreshRandom / FreeOf are structural checks on symbolic terms (engine only).
 func IsFreshRandom(b []byte) bool       { return true }
 func FreeOf(wire, secret []byte) bool  { return true }
+
+// Expect declares a label that some path must reach (vacuity guard).
+func Expect(label string) {}
